@@ -9,7 +9,7 @@
 From Coq Require Import QArith Qminmax List Bool Arith.
 From WSI Require Import Vqip Pow Tank Arc QTank Distrib Run TankLaws ArcLaws QTankLaws QueueLaws DistribLaws.
 From WSI Require Net NetLaws.
-From WSI Require Kinds TimeArea Boundary Demand DemandLaws Wtw WtwLaws LandV LandLaws.
+From WSI Require Kinds TimeArea Boundary Demand DemandLaws Wtw WtwLaws LandV LandLaws LandRouting.
 Import ListNotations.
 Open Scope Q_scope.
 
@@ -167,3 +167,26 @@ Theorem C01_pervious_surface_water_balance : forall p area t rain et0 T tn,
   vol (t_sto t') + vol excess + vol ssf + vol perc == vol (t_sto t) + pr - ev.
 Proof. exact LandLaws.ihacres_water_balance. Qed.
 Print Assumptions C01_pervious_surface_water_balance.
+
+(* the routing half of Land.run (percolation to groundwater, surface and subsurface runoff to rivers and junctions, what is
+   not placed handed back to the tanks by volume share) against ANY neighbours meeting the reply contract: what the three
+   residence tanks of the node hold less is what its out-arcs record as carried more, up to a percolation remainder below
+   FLOAT_ACCURACY that the code drops by design - volume and every additive pollutant *)
+Theorem C01_land_routing_keeps_the_books : forall S (P : port S) (K : contract S P),
+  (forall s v, okS S P K s -> wet v -> forall k, vol (snd (p_push_set P s v)) <= 0 -> get (adds (snd (p_push_set P s v))) k == 0) ->
+  forall maxiter sr ssr perc outs sr' ssr' perc' outs' c, conserved c -> star_ok S P K outs ->
+  wet (t_sto sr) -> wet (t_sto ssr) -> wet (t_sto perc) -> 0 <= t_res sr -> 0 <= t_res ssr -> 0 <= t_res perc ->
+  LandV.ld_route S P maxiter sr ssr perc outs = Some (sr', ssr', perc', outs') ->
+  exists dropped, 0 <= dropped /\ (c = SVol -> dropped <= eps) /\
+    cmp c (t_sto sr') + cmp c (t_sto ssr') + cmp c (t_sto perc') + (sumvin S c outs' - sumvin S c outs) + dropped
+    == cmp c (t_sto sr) + cmp c (t_sto ssr) + cmp c (t_sto perc).
+Proof. exact LandRouting.ld_route_books. Qed.
+Print Assumptions C01_land_routing_keeps_the_books.
+Example C01_land_routing_nonvacuous :
+  let sr := LandRouting.ex_tank (6#1) (3#2) (2#1) in let ssr := LandRouting.ex_tank (9#1) (1#1) (3#1) in
+  let perc := LandRouting.ex_tank (20#1) (5#1) (10#1) in
+  star_ok (Run.nb * Run.nb) Run.nbport tank_contract [] /\
+  wet (t_sto sr) /\ wet (t_sto ssr) /\ wet (t_sto perc) /\ 0 <= t_res sr /\ 0 <= t_res ssr /\ 0 <= t_res perc /\
+  exists r, LandV.ld_route _ Run.nbport 10 sr ssr perc [] = Some r.
+Proof. exact LandRouting.ld_route_example. Qed.
+Print Assumptions C01_land_routing_nonvacuous.
